@@ -1486,6 +1486,79 @@ theorem tri_vertices_valid {sc : Scale ℝ} {n : ℕ} {high : Option ℝ} {low r
 
 example : (0:ℝ) < 8000 ∧ 0 < 64 ∧ (0:ℝ) ≤ 20 ∧ (20:ℝ) < 300 ∧ (300:ℝ) < 700 ∧ (700:ℝ) ≤ 8000 / 2 := by norm_num
 
+/-! ## 8b. bank level: neighbouring filters of a constructed bank cross at their shared band edge -/
+
+/-- filter `i` of a constructed Gabor bank is built from the consecutive, strictly increasing band edges
+`es[i] < es[i+1]` of the layout -/
+theorem gabor_bank_filters {sc : Scale ℝ} {n : ℕ} {high : Option ℝ} {low rate : ℝ} {l2 erb : Bool}
+    {fs : List (GaborFilt ℝ)} (hv : Scale.Valid sc low) (hok : gaborBank sc n high low rate l2 erb = .ok fs)
+    (hlt : low < gabor_high high rate) :
+    ∃ es : List ℝ, gaborEdges sc n high low rate = .ok es ∧ es.length = n + 1 ∧ fs.length = n ∧
+      ∀ i (hi : i < fs.length), es[i]! < es[i + 1]! ∧ fs[i] = gaborFilt l2 erb rate es[i]! es[i + 1]! := by
+  obtain ⟨es, hE, rfl⟩ := gaborBank_ok hok
+  have L := (gabor_layout hv hE hlt).2
+  have hlen := L.length
+  have hfl : ((pairs es).map fun lr => gaborFilt l2 erb rate lr.1 lr.2).length = n := by
+    simp [pairs_length, hlen]
+  refine ⟨es, hE, hlen, hfl, fun i hi => ?_⟩
+  have hi' : i < n := by rw [hfl] at hi; exact hi
+  rw [getElem!_pos es i (by omega), getElem!_pos es (i + 1) (by omega)]
+  refine ⟨L.incr i (i + 1) (by omega) (by omega), ?_⟩
+  simp only [List.getElem_map, pairs_getElem]
+
+/-- **neighbours cross at the 3 dB point** (Gabor, `erb=False`, default normalisation): at the edge shared by
+filters `i` and `i+1` both have power gain `10^(-3/10)`. -/
+theorem gabor_neighbours_cross {sc : Scale ℝ} {n : ℕ} {high : Option ℝ} {low rate : ℝ}
+    {fs : List (GaborFilt ℝ)} (hv : Scale.Valid sc low) (hok : gaborBank sc n high low rate false false = .ok fs)
+    (hlt : low < gabor_high high rate) (hrate : 0 < rate) :
+    ∃ es : List ℝ, gaborEdges sc n high low rate = .ok es ∧
+      ∀ i (hi : i + 1 < fs.length),
+        (gaborH false (fs[i]'(by omega)) (hertz_to_angular es[i + 1]! rate)) ^ 2 = (10:ℝ) ^ (-(3/10) : ℝ) ∧
+        (gaborH false fs[i + 1] (hertz_to_angular es[i + 1]! rate)) ^ 2 = (10:ℝ) ^ (-(3/10) : ℝ) := by
+  obtain ⟨es, hE, -, -, hf⟩ := gabor_bank_filters hv hok hlt
+  refine ⟨es, hE, fun i hi => ?_⟩
+  obtain ⟨h1, e1⟩ := hf i (by omega)
+  obtain ⟨h2, e2⟩ := hf (i + 1) hi
+  rw [e1, e2]
+  exact ⟨(gabor_3dB rate _ _ hrate h1).2, (gabor_3dB rate _ _ hrate h2).1⟩
+
+theorem gammatone_bank_filters {sc : Scale ℝ} {n : ℕ} {high : Option ℝ} {low rate : ℝ} {order : ℤ}
+    {mc l2 erb : Bool} {fs : List (GammaFilt ℝ)} (hv : Scale.Valid sc low)
+    (hok : gammaBank sc n high low rate order mc l2 erb = .ok fs) (hlt : low < gammatone_high high rate) :
+    ∃ es : List ℝ, gammaEdges sc n high low rate order = .ok es ∧ es.length = n + 1 ∧ fs.length = n ∧
+      1 ≤ order.toNat ∧
+      ∀ i (hi : i < fs.length), es[i]! < es[i + 1]! ∧
+        fs[i] = gammaFilt l2 erb mc order.toNat rate es[i]! es[i + 1]! := by
+  obtain ⟨es, hE, rfl⟩ := gammaBank_ok hok
+  obtain ⟨-, ho, L⟩ := gammatone_layout hv hE hlt
+  have hlen := L.length
+  have hfl : ((pairs es).map fun lr => gammaFilt l2 erb mc order.toNat rate lr.1 lr.2).length = n := by
+    simp [pairs_length, hlen]
+  refine ⟨es, hE, hlen, hfl, by omega, fun i hi => ?_⟩
+  have hi' : i < n := by rw [hfl] at hi; exact hi
+  rw [getElem!_pos es i (by omega), getElem!_pos es (i + 1) (by omega)]
+  refine ⟨L.incr i (i + 1) (by omega) (by omega), ?_⟩
+  simp only [List.getElem_map, pairs_getElem]
+
+/-- **neighbours cross at the 3 dB point** (gammatone, `erb=False`, default normalisation): at the edge shared
+by filters `i` and `i+1` both have exactly half the peak power. -/
+theorem gammatone_neighbours_cross {sc : Scale ℝ} {n : ℕ} {high : Option ℝ} {low rate : ℝ} {order : ℤ} {mc : Bool}
+    {fs : List (GammaFilt ℝ)} (hv : Scale.Valid sc low)
+    (hok : gammaBank sc n high low rate order mc false false = .ok fs)
+    (hlt : low < gammatone_high high rate) (hrate : 0 < rate) :
+    ∃ es : List ℝ, gammaEdges sc n high low rate order = .ok es ∧
+      ∀ i (hi : i + 1 < fs.length),
+        let a := fs[i]'(by omega)
+        let b := fs[i + 1]
+        nsq (gammatone_H order.toNat a.alpha a.c a.xi a.offset (hertz_to_angular es[i + 1]! rate)) = 1 / 2 ∧
+        nsq (gammatone_H order.toNat b.alpha b.c b.xi b.offset (hertz_to_angular es[i + 1]! rate)) = 1 / 2 := by
+  obtain ⟨es, hE, -, -, ho, hf⟩ := gammatone_bank_filters hv hok hlt
+  refine ⟨es, hE, fun i hi => ?_⟩
+  obtain ⟨h1, e1⟩ := hf i (by omega)
+  obtain ⟨h2, e2⟩ := hf (i + 1) hi
+  simp only [e1, e2]
+  exact ⟨(gammatone_3dB mc _ ho rate _ _ hrate h1).2, (gammatone_3dB mc _ ho rate _ _ hrate h2).1⟩
+
 /-! ## 9. non-vacuity: concrete instances of the hypotheses -/
 
 /-- mel scale, 20 Hz … 4 kHz -/
